@@ -577,6 +577,8 @@ class Exec:
                 return False
         if fn.args.vararg or fn.args.kwarg:
             return False
+        if any(ast.unparse(d) not in PLAIN_DECORATORS for d in fn.decorator_list):
+            return False
         return True
 
     def inline_call(self, fn, selfv, owner, args, kwargs, node):
@@ -964,6 +966,16 @@ def strip_doc(body):
     return list(body)
 
 
+PLAIN_DECORATORS = {"staticmethod", "classmethod", "abstractmethod", "abc.abstractmethod", "torch.no_grad()", "torch.inference_mode()", "torch.jit.unused", "torch.jit.export", "override", "typing.override"}
+
+
+def _check_decorators(node, qualname, path):
+    """A decorator can change what a function does (caching, wrapping): anything but the plain ones is refused."""
+    for d in getattr(node, "decorator_list", []):
+        if ast.unparse(d) not in PLAIN_DECORATORS:
+            raise Untranslatable("symbolic execution: %s is decorated with %s" % (qualname, ast.unparse(d)[:60]), getattr(node, "lineno", None), path)
+
+
 def watch_calls(tree, path, qualname, names, opaque=(), inline=None):
     """Every call of the named functions / methods met while executing `qualname` symbolically, as (path conditions,
     args, kwargs); execution goes as far as the subset allows (the calls met before an untranslatable statement are still
@@ -974,6 +986,7 @@ def watch_calls(tree, path, qualname, names, opaque=(), inline=None):
         node = next((ch for ch in node.body if isinstance(ch, (ast.FunctionDef, ast.ClassDef)) and ch.name == p), None)
         if node is None:
             raise Untranslatable("definition %s not found" % qualname, None, path)
+    _check_decorators(node, qualname, path)
     ex = Exec(tree, path, cls=parts[0] if len(parts) == 2 else None, opaque=set(opaque) | {parts[-1]} | set(names), inline=inline)
     ex.watch = {n: [] for n in names}
     env = {a.arg: ("sym", a.arg) for a in node.args.posonlyargs + node.args.args + node.args.kwonlyargs}
@@ -1078,6 +1091,7 @@ def run_function(tree, path, qualname, opaque=(), inline=None, args=None, max_de
         if found is None:
             raise Untranslatable("definition %s not found" % qualname, None, path)
         node = found
+    _check_decorators(node, qualname, path)
     ex = Exec(tree, path, cls=cls, opaque=set(opaque) | {parts[-1]}, inline=inline, max_depth=max_depth)
     ex.attrs = dict(attrs or {})
     ex.callhooks = dict(callhooks or {})
